@@ -348,6 +348,137 @@ def stream_launch(ctx, n, name="prep-env-subproc"):
             ctx.spec_failure(case, {"child_env_subset": {k: got.get(k) for k in ("XV_S0", "XV1PATH", "XV_OV")}}, "launch: " + pr, None)
 
 
+def stream_overlay_launch(ctx, n, name="launch-around-overlay-scopes"):
+    ctx.stream_rule(
+        name,
+        "a launch (prep_env_subproc) made INSIDE a callable-alias style overlay scope (values and DELETE_VAR masks) is followed, "
+        "after the scope ended and with no env write in between, by another launch: the second child must receive the session's "
+        "values again (no overlay value, no missing masked variable), and the first must have received the overlay; "
+        "non-trivial = overlay with a mask or shadowing an existing variable",
+    )
+    import xonsh.environ as environ
+    from xonsh.built_ins import XSH
+    from xonsh.procs.specs import SubprocSpec
+
+    for i in range(n):
+        XSH.env = env = environ.Env({"XV_A": "a", "XV_B": "b", "HOME": "/tmp"})
+        if ctx.rng.random() < 0.5:
+            env.detype()
+        ov = {}
+        if ctx.rng.random() < 0.7:
+            ov["XV_A"] = ctx.rng.choice(["shadow", env.DELETE_VAR])
+        if ctx.rng.random() < 0.7 or not ov:
+            ov["XV_NEW"] = "n"
+        inner, outer = {}, {}
+        with env.swap(overlay=ov):
+            spec = SubprocSpec(["true"])
+            spec.prep_env_subproc(inner)
+        spec2 = SubprocSpec(["true"])
+        spec2.prep_env_subproc(outer)
+        inner, outer = inner["env"], outer["env"]
+        case = {"stream": name, "overlay": {k: ("DELETE_VAR" if v is env.DELETE_VAR else v) for k, v in ov.items()}}
+        ctx.case(name, repr(case) + str(i), "XV_A" in ov, case)
+        want_inner = {"XV_A": "a", "XV_B": "b"}
+        for k, v in ov.items():
+            if v is env.DELETE_VAR:
+                want_inner.pop(k, None)
+            else:
+                want_inner[k] = v
+        sub = lambda d: {k: d[k] for k in ("XV_A", "XV_B", "XV_NEW") if k in d}  # noqa: E731
+        if sub(inner) != want_inner:
+            ctx.spec_failure(case, {"child_in_scope": sub(inner), "want": want_inner}, "a child launched inside an overlay scope did not receive the overlaid values", None)
+        if sub(outer) != {"XV_A": "a", "XV_B": "b"}:
+            ctx.spec_failure(case, {"child_after_scope": sub(outer), "want": {"XV_A": "a", "XV_B": "b"}}, "a child launched after an overlay scope ended still received that scope's environment", None)
+
+
+def stream_lscolors(ctx, n, name="ls-colors-histories"):
+    ctx.stream_rule(
+        name,
+        "$LS_COLORS (a mutable mapping with its own detype cache): random sequences of item assignment (colour tuples, 'target', "
+        "('RESET',)), deletion and launches; every launch must hand the child exactly what a FRESH LsColors built from the current "
+        "items detypes to, and converting it back must give the current items; non-trivial = assignment after a launch",
+    )
+    import xonsh.environ as environ
+    from xonsh.built_ins import XSH
+
+    keys = ["ln", "ln", "ln", "di", "ex", "*.py", "fi"]
+    vals = [("RESET",), ("RESET",), "target", "target", ("BLUE",), ("BOLD_GREEN",), ("RED", "BACKGROUND_BLACK")]
+    for i in range(n):
+        XSH.env = env = environ.Env({"HOME": "/tmp"})
+        env["LS_COLORS"] = environ.LsColors({"di": ("BLUE",), "ln": ("CYAN",)})
+        script = []
+        launched = False
+        nontriv = False
+        for _ in range(ctx.rng.randint(4, 10)):
+            r = ctx.rng.random()
+            lsc = env["LS_COLORS"]
+            if r < 0.5:
+                k, v = ctx.rng.choice(keys), ctx.rng.choice(vals)
+                if k != "ln" and v == "target":
+                    v = ("RESET",)
+                lsc[k] = v
+                script.append(["set", k, v if isinstance(v, str) else list(v)])
+                nontriv = nontriv or launched
+            elif r < 0.65:
+                k = ctx.rng.choice(keys)
+                if k in lsc:
+                    del lsc[k]
+                    script.append(["del", k])
+            else:
+                got = env.detype().get("LS_COLORS")
+                fresh = environ.LsColors(dict(lsc.items()) if hasattr(lsc, "items") else dict(lsc))
+                for k in list(lsc.keys()):
+                    if lsc.is_target(k) if hasattr(lsc, "is_target") else False:
+                        fresh[k] = "target"
+                want = fresh.detype()
+                script.append(["launch"])
+                launched = True
+                if got != want:
+                    case = {"stream": name, "script": script}
+                    ctx.spec_failure(case, {"child_receives": got, "current_value_detypes_to": want}, "$LS_COLORS handed to a child does not reflect its current items", None)
+                    break
+        ctx.case(name, repr(script) + str(i), nontriv, {"script": script[:6]})
+
+
+def stream_pipeline_env(ctx, n, name="per-command-env-in-pipelines"):
+    ctx.stream_rule(
+        name,
+        "cmds_to_specs on pipelines of 1-4 stages where a seeded subset of the stages carries a `$X=v cmd` prefix (the parser's "
+        "`envs` list, aligned with the command list including the '|' entries): every stage's spec must carry exactly its own "
+        "overlay and no other stage's; non-trivial = a prefix on a stage other than the first",
+    )
+    import xonsh.environ as environ
+    from xonsh.built_ins import XSH
+    from xonsh.commands_cache import CommandsCache
+    from xonsh.procs.specs import cmds_to_specs
+
+    XSH.env = environ.Env({"PATH": ["/usr/bin", "/bin"], "HOME": "/tmp"})
+    XSH.commands_cache = CommandsCache(XSH.env)
+    for i in range(n):
+        k = ctx.rng.choice([1, 2, 2, 3, 3, 4])
+        cmds, envs, want = [], [], []
+        for j in range(k):
+            if j:
+                cmds.append("|")
+                envs.append(None)
+            cmds.append(["cat"] if j else ["echo", "hi"])
+            e = {f"XV_P{j}": f"v{j}"} if ctx.rng.random() < 0.5 else None
+            envs.append(e)
+            want.append(e)
+        try:
+            specs = cmds_to_specs(cmds, captured="hiddenobject", envs=envs)
+        except Exception as ex:  # noqa: BLE001
+            ctx.spec_failure({"stream": name, "cmds": cmds, "envs": envs}, {"raised": f"{type(ex).__name__}: {ex}"}, "cmds_to_specs raised on a pipeline with per-command env prefixes", None)
+            continue
+        # (cmds_to_specs itself adds XONSH_CAPTURE_ALWAYS for piped stages: only the user's variables are compared)
+        got = [({k: v for k, v in s.env.items() if k.startswith("XV_")} or None) if s.env else None for s in specs]
+        for s in specs:
+            s.close() if hasattr(s, "close") else None
+        ctx.case(name, repr((cmds, envs)), any(e is not None for e in want[1:]), {"stages": k, "prefix_on": [j for j, e in enumerate(want) if e]})
+        if got != want:
+            ctx.spec_failure({"stream": name, "envs_by_stage": want}, {"spec_env_by_stage": got}, "a `$X=v cmd` prefix inside a pipeline reached the wrong stage (or none)", None)
+
+
 def replay_known(ctx):
     import xonsh.environ as environ
 
@@ -404,6 +535,9 @@ def run(ctx):
     stream_pairs(ctx, ctx.n(2, 20))
     stream_histories(ctx, ctx.n(400, 6000), 14)
     stream_launch(ctx, ctx.n(60, 600))
+    stream_overlay_launch(ctx, ctx.n(40, 400))
+    stream_lscolors(ctx, ctx.n(200, 2000))
+    stream_pipeline_env(ctx, ctx.n(60, 600))
 
 
 def search(ctx, reason):
